@@ -32,7 +32,10 @@ def corr_bilform(res, tier, salt, curves=('unitsquare', 'lshape', 'interval', 'r
                         xa, xb = rng.choice(ivs), rng.choice(ivs)
                         if rng.random() < 0.25:  # parent / child / quarter pairs as used by the estimators
                             m = (xa[0] + xa[1]) / 2
-                            xb = rng.choice([(xa[0], m), (m, xa[1]), xa])
+                            q = (xa[1] - xa[0]) / 4
+                            xb = rng.choice([(xa[0], m), (m, xa[1]), xa, (xa[0] + q, m), (m, m + q), (xa[0] + q, m + q)])
+                            if rng.random() < 0.5:
+                                xa, xb = xb, xa
                         ta, tb = rng.choice(TIME_LATTICE), rng.choice(TIME_LATTICE)
                         test = fx.elem(ta[0], ta[1], xa[0], xa[1])
                         trial = fx.elem(tb[0], tb[1], xb[0], xb[1])
@@ -61,8 +64,20 @@ def corr_bilform(res, tier, salt, curves=('unitsquare', 'lshape', 'interval', 'r
 
 
 # ---------------------------------------------------------------------------------------------------------
+# user polygons (PiecewisePolygon accepts any vertex list): curves on which two points far apart in arc length are
+# close in the plane -- facing long sides of a thin rectangle, the two walls of a narrow notch
+USER_POLYGONS = {
+    'ThinRect': [(0., 0.), (1., 0.), (1., 0.125), (0., 0.125), (0., 0.)],
+    'Notch': [(0., 0.), (1., 0.), (1., 1.), (0.625, 1.), (0.625, 0.25), (0.5, 0.25), (0.5, 1.), (0., 1.), (0., 0.)],
+}
+
+
 def make_curve(name):
     from src import parametrization as P
+    if name in USER_POLYGONS:
+        g = P.PiecewisePolygon([np.array(v) for v in USER_POLYGONS[name]])
+        g.verif_name = name
+        return g
     return {'UnitSquare': P.UnitSquare, 'PiSquare': P.PiSquare, 'LShape': P.LShape, 'Circle': P.Circle,
             'UnitInterval': P.UnitInterval}[name]()
 
@@ -77,6 +92,11 @@ def random_real_mesh(rng, curve_name, n_ops, max_aspect=32.0, time_grid=None):
             for e in list(mesh.leaf_elements):
                 if e.h_x > 1:
                     mesh.refine_space(e)
+        if curve_name in USER_POLYGONS:   # resolve the narrow gap: h_x <= gap width on the long sides
+            for _ in range(3):
+                for e in list(mesh.leaf_elements):
+                    if e.h_x > 0.13:
+                        mesh.refine_space(e)
         for _ in range(n_ops):
             e = rng.choice(list(mesh.leaf_elements))
             ax = 0 if rng.random() < 0.55 else 1
@@ -199,7 +219,7 @@ def seam_and_corner_pairs(rng, gamma, n, with_addr=False):
     base = 2 if (closed and K == 1) else 0   # one-piece closed curve: at least 4 elements around it
     for _ in range(n):
         i, j = base + rng.randint(0, 4), base + rng.randint(0, 4)
-        kind = rng.choice(['seam', 'seam', 'corner', 'nested'] if closed else ['corner', 'nested'])
+        kind = rng.choice(['seam', 'seam', 'corner', 'nested', 'interior'] if closed else ['corner', 'nested', 'interior'])
         if kind == 'seam':
             A, B = (0, i, 0), (K - 1, j, 2**j - 1)
         elif kind == 'corner' and K > 1:
@@ -208,6 +228,14 @@ def seam_and_corner_pairs(rng, gamma, n, with_addr=False):
         elif kind == 'corner':
             k4 = rng.randrange(1, 4)   # circle: an interior multiple of a quarter
             A, B = (0, i, k4 * 2**(i - 2) - 1), (0, j, k4 * 2**(j - 2))
+        elif kind == 'interior':
+            # strictly nested, no common end point (a < c < d < b): leaves of different time slabs whose space levels
+            # differ by >= 2, or a leaf against a space child of a one-level-finer leaf of another slab
+            k = rng.randrange(0, K)
+            ia = base + rng.randint(0, 2)
+            ma = rng.randrange(2**ia)
+            dj = rng.randint(2, 4)
+            A, B = (k, ia, ma), (k, ia + dj, ma * 2**dj + rng.randrange(1, 2**dj - 1))
         else:
             kind = 'nested'
             k = rng.randrange(0, K)
